@@ -98,6 +98,8 @@ def run(tier, seed):
         Ls = 2 * nsrc * 512 + rng.choice([0, 100])
         ref = g.randn(nsrc, Ls)
         order = list(rng.choice([p for p in itertools.permutations(range(nsrc))]))
+        if nsrc == 3 and it in (0, 2):
+            order = [1, 2, 0] if it == 0 else [2, 0, 1]      # the two assignments that are not their own inverse, on every run
         mix = np.eye(nsrc)[order] + 0.25 * g.randn(nsrc, nsrc)
         est = mix.dot(ref) + 0.05 * g.randn(nsrc, Ls)
         if it % 3 == 1:                                   # filtered estimates
